@@ -17,7 +17,7 @@ from . import absmodel, core, tlc
 
 FEATURES = ["docstring", "future_import", "comments", "decorators", "nested_defs", "partial_annotations", "typing_import",
             "import_module_runtime", "import_alias", "import_in_function", "existing_tc_block", "star_import", "import_dotted",
-            "class_level_code", "module_level_code", "respelled_annotations", "wordy_annotations"]
+            "class_level_code", "module_level_code", "respelled_annotations", "wordy_annotations", "relative_import"]
 
 
 def gen_source(feat):
@@ -39,6 +39,8 @@ def gen_source(feat):
         L.append("import zshapes")
     if "import_alias" in f:
         L.append("from zshapes import Circle as C")
+    if "relative_import" in f:
+        L.append("from .zshapes import Circle")     # the package's own zshapes module, used at run time
     if "star_import" in f:
         L.append("from zsh.deep import *")
     if "import_dotted" in f:
@@ -61,6 +63,8 @@ def gen_source(feat):
         L.append("    y = zshapes.area(x)")
     if "import_alias" in f:
         L.append("    z = C()")
+    if "relative_import" in f:
+        L.append("    zz = Circle()")
     if "nested_defs" in f:
         L += ["    def inner(q):", "        return q", "    x = inner(x)"]
     L += ["    return x", ""]
@@ -109,6 +113,9 @@ def import_items(tree, runtime_names=None):
     visit(tree.body, "top")
     for it in items:
         it["runtime"] = bool(runtime_names is not None and it["bound"] in runtime_names)
+    for it in items:     # a name that is ALSO bound by a module-level import outside TYPE_CHECKING is served by that one at run time
+        if it["block"] == "tc" and any(o is not it and o["block"] == "top" and o["bound"] == it["bound"] for o in items):
+            it["runtime"] = False
     return items
 
 
@@ -271,10 +278,12 @@ def __workload__():
 '''
 
 
-def behaviour(text, name):
+def behaviour(text, name, package=None):
     """Execute the module text in a fresh namespace and run the fixed workload."""
     mod = types.ModuleType(name)
     mod.__dict__["__name__"] = name
+    if package:
+        mod.__dict__["__package__"] = package
     try:
         exec(compile(text + WORKLOAD, "<%s>" % name, "exec"), mod.__dict__)
     except Exception as e:
@@ -308,7 +317,17 @@ def run_case(case):
     w["n"] += 1
     name = "mta_%d_%d" % (os.getpid(), w["n"])
     src = gen_source(case["features"])
-    path = os.path.join(w["dir"], name + ".py")
+    package = None
+    if "relative_import" in case["features"]:      # the module lives in a package that has its own `zshapes` module
+        package = "pk" + name
+        os.makedirs(os.path.join(w["dir"], package))
+        open(os.path.join(w["dir"], package, "__init__.py"), "w").close()
+        with open(os.path.join(w["dir"], package, "zshapes.py"), "w") as fh:
+            fh.write("class Circle:\n    local = True\n\n\nclass Square:\n    local = True\n")
+        path = os.path.join(w["dir"], package, "core.py")
+        name = package + ".core"
+    else:
+        path = os.path.join(w["dir"], name + ".py")
     with open(path, "w") as fh:
         fh.write(src)
     importlib.invalidate_caches()
@@ -366,8 +385,8 @@ def run_case(case):
         rec["future_first"] = (isinstance(first, ast.ImportFrom) and first.module == "__future__"
                                and any(a.name == "annotations" for n in body if isinstance(n, ast.ImportFrom) and n.module == "__future__" for a in n.names)
                                and all(not (isinstance(n, ast.ImportFrom) and n.module == "__future__") or idx < 3 for idx, n in enumerate(body)))
-        ok0, b0 = behaviour(src, name + "_a")
-        ok1, b1 = behaviour(res, name + "_b")
+        ok0, b0 = behaviour(src, name + "_a", package)
+        ok1, b1 = behaviour(res, name + "_b", package)
         rec["importable"] = ok1 or not ok0
         rec["behaviour"] = (b0 == b1) if ok1 else True
         if not ok1:
